@@ -35,7 +35,7 @@ type Outcome struct {
 	Kind  OK
 	Node  string
 	Text  string
-	Plain bool // Text can be compared literally (no number outside the plain display zone)
+	Plain bool      // Text can be compared literally (no number outside the plain display zone)
 	Nums  []float64 // the numbers marked in Text when !Plain
 	Tags  []string
 	Opts  []Opt
